@@ -55,14 +55,16 @@ def _on_alarm(signum, frame):
 
 def evaluate(mod, case):
     ctx = Ctx()
+    # the watchdog counts this process' own CPU time (ITIMER_VIRTUAL), not wall time, so that a
+    # loaded machine cannot turn a slow case into an "inconclusive" run
     if _limit[0]:
-        signal.signal(signal.SIGALRM, _on_alarm)
-        signal.alarm(_limit[0])
+        signal.signal(signal.SIGVTALRM, _on_alarm)
+        signal.setitimer(signal.ITIMER_VIRTUAL, _limit[0])
     try:
         mod.check(case, ctx)
     finally:
         if _limit[0]:
-            signal.alarm(0)
+            signal.setitimer(signal.ITIMER_VIRTUAL, 0)
     return ctx
 
 
